@@ -758,7 +758,7 @@ pub fn one_run(ctx: &Ctx, out: &mut Outcome, run_seed: u64) {
             while t < bound {
                 sim.tick(&mut mons, ctx, out);
                 t += 1;
-                let done = sim.outstanding[healthy][0].iter().all(|x| *x == 0) && sim.outstanding[healthy][1].iter().all(|x| *x == 0);
+                let done = sim.outstanding_n[healthy][0].iter().all(|x| *x == 0) && sim.outstanding_n[healthy][1].iter().all(|x| *x == 0);
                 if done {
                     break;
                 }
